@@ -33,6 +33,7 @@ type srvOpt struct {
 	CloseEveryAnswer bool // no choice: every answer is followed by a close while the budget lasts
 	ResetOnWrite bool // after the server closed, the client's next write fails (RST) instead of vanishing
 	BadLen      bool // may send a frame whose header announces more bytes than ever arrive
+	Delay       time.Duration // the server thinks this long before every action (slow server)
 }
 
 type tOpt struct {
@@ -252,6 +253,12 @@ func (s *tsys) serve(cn *tConn) {
 				cn.pending = nil
 			}
 			continue
+		}
+		if so.Delay > 0 {
+			vs.Sleep(so.Delay)
+			if s.stop || cn.a.Closed() {
+				return
+			}
 		}
 		// menu of actions
 		type act struct {
